@@ -11,6 +11,7 @@ pub struct RecG { pub seqno: u64, pub ops: Seq<OpV>, pub end: nat, pub batch: bo
 pub struct JournalG {
     pub locked: bool,          // the journal mutex is held by the thread under analysis
     pub failed: bool,          // an append / flush / sync of the journal has returned an error
+    pub mutex_poisoned: bool,  // a thread panicked while holding the journal mutex: nobody can take it any more
     pub recs: Seq<RecG>,       // complete batches appended so far, in file order
     pub len: nat, pub os_len: nat, pub synced_len: nat,   // three-tier lengths (user buffer / OS / device)
 }
@@ -257,23 +258,27 @@ impl Mutex<Writer> {
     pub fn lock(&self, Tracked(w): Tracked<&mut World>) -> (r: Result<MutexGuard<'_, Writer>, PoisonError>)
         requires !old(w).journal.locked,   // no self-deadlock
         ensures r is Ok ==> *final(w) == (World { journal: JournalG { locked: true, ..old(w).journal }, poison_checked: false, ..*old(w) }),
-                r is Err ==> *final(w) == *old(w),
+                r is Err ==> *final(w) == *old(w) && old(w).journal.mutex_poisoned,
     { unimplemented!() }
 }
 /// rule R-DROP / R-SCOPE: `drop(x)` of a guard is visible as an event
-pub trait ShimDrop { spec fn drop_pre(w: World) -> bool; spec fn drop_post(o: World, n: World) -> bool; }
+pub trait ShimDrop { spec fn drop_pre(&self, w: World) -> bool; spec fn drop_post(&self, o: World, n: World) -> bool; }
 impl<'a> ShimDrop for MutexGuard<'a, Writer> {
     // P-VIS / P-PUBLISH: the journal critical section ends only after everything journaled in it was applied and
     // published (a failed operation may leave with a burned seqno, but then the instance must already be poisoned)
-    open spec fn drop_pre(w: World) -> bool {
+    open spec fn drop_pre(&self, w: World) -> bool {
         w.journal.locked && ((w.inflight is None && w.pending.len() == 0) || (w.poison.dom().contains(w.db_poison) && w.poison[w.db_poison]))
     }
-    open spec fn drop_post(o: World, n: World) -> bool { n == (World { journal: JournalG { locked: false, ..o.journal }, ..o }) }
+    open spec fn drop_post(&self, o: World, n: World) -> bool { n == (World { journal: JournalG { locked: false, ..o.journal }, ..o }) }
+}
+impl<'a> ShimDrop for Result<MutexGuard<'a, Writer>, Error> {
+    open spec fn drop_pre(&self, w: World) -> bool { self is Ok ==> (*self)->Ok_0.drop_pre(w) }
+    open spec fn drop_post(&self, o: World, n: World) -> bool { if self is Ok { (*self)->Ok_0.drop_post(o, n) } else { n == o } }
 }
 #[verifier::external_body]
 pub fn drop<T: ShimDrop>(t: T, Tracked(w): Tracked<&mut World>)
-    requires T::drop_pre(*old(w)), // [C06:unlock-after-publish] [C02:unlock-after-apply] [C13:early-exit-only-when-poisoned]
-    ensures T::drop_post(*old(w), *final(w)),
+    requires t.drop_pre(*old(w)), // [C06:unlock-after-publish] [C02:unlock-after-apply] [C13:early-exit-only-when-poisoned]
+    ensures t.drop_post(*old(w), *final(w)),
 { unimplemented!() }
 
 // ---------------------------------------------------------------- lsm-tree (AnyTree): MVCC memtable writes
@@ -340,8 +345,12 @@ impl<T> HashSet<T> {
     #[verifier::external_body]
     pub fn insert(&mut self, t: T) -> (r: bool) { unimplemented!() }
 }
-pub struct KsReadGuard { pub dummy: u8 }
-impl ShimDrop for KsReadGuard { open spec fn drop_pre(w: World) -> bool { true } open spec fn drop_post(o: World, n: World) -> bool { n == o } }
+pub struct KsReadGuard { pub vals: Vec<Keyspace> }
+impl KsReadGuard {
+    // HashMap::values through the read guard: each registered keyspace handle once, order unspecified
+    pub fn values(&self) -> (r: &Vec<Keyspace>) ensures r == &self.vals { &self.vals }
+}
+impl ShimDrop for KsReadGuard { open spec fn drop_pre(&self, w: World) -> bool { true } open spec fn drop_post(&self, o: World, n: World) -> bool { n == o } }
 pub struct KsLockResult { pub dummy: u8 }
 impl KsLockResult {
     // a poisoned RwLock panics here in the real code (another thread panicked while holding it): not modelled
@@ -460,12 +469,12 @@ impl AtomicU64 {
     { unimplemented!() }
 }
 impl ShimDrop for GcReadGuard {
-    open spec fn drop_pre(w: World) -> bool { w.tracker.rlock }
-    open spec fn drop_post(o: World, n: World) -> bool { n == (World { tracker: TrackerG { rlock: false, ..o.tracker }, ..o }) }
+    open spec fn drop_pre(&self, w: World) -> bool { w.tracker.rlock }
+    open spec fn drop_post(&self, o: World, n: World) -> bool { n == (World { tracker: TrackerG { rlock: false, ..o.tracker }, ..o }) }
 }
 impl ShimDrop for GcWriteGuard {
-    open spec fn drop_pre(w: World) -> bool { w.tracker.wlock }
-    open spec fn drop_post(o: World, n: World) -> bool { n == (World { tracker: TrackerG { wlock: false, ..o.tracker }, ..o }) }
+    open spec fn drop_pre(&self, w: World) -> bool { w.tracker.wlock }
+    open spec fn drop_post(&self, o: World, n: World) -> bool { n == (World { tracker: TrackerG { wlock: false, ..o.tracker }, ..o }) }
 }
 // ghost-only update of the registration truth `tracker.live` (no executable state is touched)
 #[verifier::external_body]
@@ -523,4 +532,75 @@ impl Memtable {
     pub fn size(&self) -> (r: u64) { unimplemented!() }
     #[verifier::external_body]
     pub fn id(&self) -> (r: u64) { unimplemented!() }
+}
+
+// ---------------------------------------------------------------- lsm-tree maintenance (flush / compaction / rotation / version GC)
+// Copied from lsm-tree 3.1.10 (src/version/super_version.rs:120-143 `upgrade_version`): every version change draws a
+// seqno from the SHARED seqno counter and does visible.fetch_max(seqno + 1) on the SHARED visible counter, because
+// fjall hands its own counters to every tree. Hence P-VIS applies to every call below that changes a version.
+pub open spec fn version_change_pre(w: World) -> bool {
+    // P-VIS (C06): nothing may advance the visible seqno while a batch is half applied; the only way fjall has to
+    // exclude that is the journal lock
+    // (after a journal failure a seqno may be burned; nothing was applied at it, the instance is poisoned)
+    w.journal.locked && ((w.inflight is None && w.pending.len() == 0) || (w.poison.dom().contains(w.db_poison) && w.poison[w.db_poison]))
+}
+pub open spec fn version_change_post(o: World, n: World, ks: u64) -> bool {
+    &&& n == (World { seqno: n.seqno, visible: n.visible, trees: n.trees, ..o })
+    &&& n.seqno >= o.seqno && n.visible >= o.visible && n.visible <= n.seqno
+    &&& n.trees.dom() == o.trees.dom()
+    &&& (forall|k: u64| k != ks && o.trees.dom().contains(k) ==> #[trigger] n.trees[k] == o.trees[k])
+    &&& n.trees[ks].applied == o.trees[ks].applied && n.trees[ks].manual_persist == o.trees[ks].manual_persist
+}
+pub struct FlushLock { pub dummy: u8 }
+pub struct CompactionStrategyHandle { pub dummy: u8 }
+impl Clone for CompactionStrategyHandle {
+    #[verifier::external_body]
+    fn clone(&self) -> (r: CompactionStrategyHandle) { unimplemented!() }
+}
+pub struct VersionHistoryLock { pub tree: Ghost<u64> }
+impl AnyTree {
+    #[verifier::external_body]
+    pub fn get_flush_lock(&self) -> (r: FlushLock) { unimplemented!() }
+    #[verifier::external_body]
+    pub fn flush(&self, lock: &FlushLock, gc_watermark: u64, Tracked(w): Tracked<&mut World>) -> (r: Result<Option<u64>, lsm_tree::Error>)
+        requires old(w).trees.dom().contains(self.id@),
+                 gc_watermark <= old(w).tracker.freed, // [C05:P-GC] [C01:P-GC]
+                 version_change_pre(*old(w)), // [C06:P-VIS-version-change]
+        ensures version_change_post(*old(w), *final(w), self.id@),
+    { unimplemented!() }
+    #[verifier::external_body]
+    pub fn compact(&self, strategy: CompactionStrategyHandle, gc_watermark: u64, Tracked(w): Tracked<&mut World>) -> (r: Result<(), lsm_tree::Error>)
+        requires old(w).trees.dom().contains(self.id@),
+                 gc_watermark <= old(w).tracker.freed, // [C05:P-GC] [C01:P-GC] [C18:P-GC]
+                 version_change_pre(*old(w)), // [C06:P-VIS-version-change]
+        ensures version_change_post(*old(w), *final(w), self.id@),
+    { unimplemented!() }
+    #[verifier::external_body]
+    pub fn major_compact(&self, target_size: u64, gc_watermark: u64, Tracked(w): Tracked<&mut World>) -> (r: Result<(), lsm_tree::Error>)
+        requires old(w).trees.dom().contains(self.id@),
+                 gc_watermark <= old(w).tracker.freed, // [C05:P-GC] [C01:P-GC] [C18:P-GC]
+                 version_change_pre(*old(w)), // [C06:P-VIS-version-change]
+        ensures version_change_post(*old(w), *final(w), self.id@),
+    { unimplemented!() }
+    // memtable rotation: only inside the journal critical section (so that no write is between journal and memtable)
+    #[verifier::external_body]
+    pub fn rotate_memtable(&self, Tracked(w): Tracked<&mut World>) -> (r: Option<Memtable>)
+        requires old(w).trees.dom().contains(self.id@),
+                 version_change_pre(*old(w)), // [C06:P-VIS-version-change] [C01:rotation-under-journal-lock] [C02:rotation-under-journal-lock]
+        ensures version_change_post(*old(w), *final(w), self.id@),
+    { unimplemented!() }
+    #[verifier::external_body]
+    pub fn get_version_history_lock(&self) -> (r: VersionHistoryLock) ensures r.tree == self.id { unimplemented!() }
+    #[verifier::external_body]
+    pub fn sealed_memtable_count(&self) -> (r: usize) { unimplemented!() }
+    #[verifier::external_body]
+    pub fn l0_run_count(&self) -> (r: usize) { unimplemented!() }
+}
+impl VersionHistoryLock {
+    // drops super-versions that no snapshot above the watermark can need
+    #[verifier::external_body]
+    pub fn maintenance(&self, path: &PathBuf, gc_watermark: u64, Tracked(w): Tracked<&mut World>) -> (r: Result<(), lsm_tree::Error>)
+        requires gc_watermark <= old(w).tracker.freed, // [C05:P-GC] [C01:P-GC]
+        ensures *final(w) == *old(w),
+    { unimplemented!() }
 }
